@@ -81,10 +81,23 @@ Proof.
 Qed.
 
 Lemma wrap32_small i : (N.of_nat i < 4294967296)%N -> wrap32 i = i.
-Proof. intros H. unfold wrap32. rewrite N.mod_small by exact H. apply Nat2N.id. Qed.
+Proof. intros H. unfold wrap32. apply N.ltb_lt in H. rewrite H. reflexivity. Qed.
 
 Lemma wrap16_small i : (N.of_nat i < 65536)%N -> wrap16 i = i.
-Proof. intros H. unfold wrap16. rewrite N.mod_small by exact H. apply Nat2N.id. Qed.
+Proof. intros H. unfold wrap16. apply N.ltb_lt in H. rewrite H. reflexivity. Qed.
+
+(* the stored lane is the row index modulo 2^32 / 2^16 (`i as i32` / `i as i16` read back unsigned) *)
+Lemma wrap32_mod i : wrap32 i = N.to_nat (N.modulo (N.of_nat i) 4294967296).
+Proof.
+  unfold wrap32. destruct (N.ltb_spec (N.of_nat i) 4294967296) as [H|H]; auto.
+  rewrite N.mod_small by exact H. symmetry. apply Nat2N.id.
+Qed.
+
+Lemma wrap16_mod i : wrap16 i = N.to_nat (N.modulo (N.of_nat i) 65536).
+Proof.
+  unfold wrap16. destruct (N.ltb_spec (N.of_nat i) 65536) as [H|H]; auto.
+  rewrite N.mod_small by exact H. symmetry. apply Nat2N.id.
+Qed.
 
 (* ---------- the lane-wise arg-max scan of the f32 kernels ---------- *)
 
